@@ -394,6 +394,31 @@ def c01_7(R):
         R.ok("ack-result-merged", pam.name, "result.update(&process_incoming_message(..)?)")
     else:
         R.fail([pam.name, "process_incoming_message-result-not-merged"], "the per-message ACK result is not merged into the batch result", where=pc[0].where(), instance="ack-result-merged")
+    # ... and once merged, the batch result reaches the `acked > 0 => truncate_front` decision on every normal exit
+    tf = [t for t in pam.calls() if call_matches(t, ("stream_tx::UserTx::truncate_front",))]
+    R.require(len(tf) == 1, "truncate_front in process_all_incoming_messages")
+    gates = set()
+    for c_, truth_, d_, term_, *_ in controlling(pam, tf[0].bb):
+        x = nonzero_test(c_, truth_)
+        if x is not None and trace(pam, x).last_field in ("OnAckResult.acked_segments_count", "OnAckResult.acked_bytes"):
+            gates.add(term_.bb)
+    R.require(gates, "the acked > 0 test guarding truncate_front")
+    def closes(body_):
+        return [s_ for s_ in body_.stmts() if written_field(body_, s_) == "VirtualSocket.state" and s_.rv.ops and "Closed" in classify(body_, s_.rv.ops[0])]
+    closed = {s_.bb for s_ in closes(pam)}
+    closers = {cb.name for cb in R.facts.closures_of(pam.name) if closes(cb)}  # log_if_changed!(.., |s| s.state = Closed)
+    closed |= {t.bb for t in pam.calls() if t.resolved in closers}
+    closed |= {s_.bb for s_ in pam.stmts() if s_.rv.kind == "agg" and s_.rv.j.get("ak") == "closure" and s_.rv.j.get("closure") in closers}
+    for u_ in upd:
+        start = u_.j["target"]
+        reach = pam.reachable(start, removed_blocks=gates | closed)
+        bad = [it for it, cls in ret_assignments(pam) if cls.startswith("Ok") and it.bb in reach]
+        if not bad:
+            R.ok("merged-result=>ring-truncation-decided", pam.name, "every Ok exit after a processed message passes the acked > 0 test (or closes the connection)")
+        else:
+            R.fail([pam.name, "Ok-exit-after(process_incoming_message)-skips(truncate_front)"],
+                   "process_all_incoming_messages can return Ok after a message was processed without reaching truncate_front: acknowledged bytes stay in the TX ring while the segments' offsets have moved on - every later (re)transmission carries the wrong bytes",
+                   where=bad[0].where(), witness=path_lines(pam, shortest_path(pam, start, [bad[0].bb], removed_blocks=gates | closed)), instance="merged-result=>ring-truncation-decided")
     u = R.body("stream_dispatch::ProcessIncomingMessageResult::update")
     if any(call_matches(t, ("stream_tx_segments::OnAckResult::update",)) for t in u.calls()):
         R.ok("ack-result-merged", u.name, "delegates to OnAckResult::update")
